@@ -1,16 +1,70 @@
 CFG = {
         "gen": [],
         "props": ["EraVerif.Props.C15"],
-        "required_theorems": ["state_inv", "drop_never_underflows", "window_bound", "consumption_window_bound",
-                              "window_bound_tight", "fifo", "served_is_queue_head", "cancel_consumes_nothing",
-                              "unserved_waits_consume_nothing", "inf_rate_no_limit", "over_burst_never_served"],
-        "technique": "Lean 4 theorems (induction over arbitrary operation sequences) on an executable transcription of limiter/mod.rs + differential run against the real Limiter (ManualClock, hand-polled futures)",
-        "level_text": "TODO",
-        "level_note": "TODO",
+        "required_theorems": [
+            # Part A: the limiter
+            "state_inv", "drop_never_underflows", "window_bound", "consumption_window_bound", "window_bound_tight",
+            "fifo", "served_is_queue_head", "cancel_consumes_nothing", "unserved_waits_consume_nothing",
+            "inf_rate_no_limit", "over_burst_never_served",
+            # Part B: per connection and RPC kind (composition)
+            "opens_rate_limited", "established_rate_limited", "requests_started_window_bound",
+            "inflight_le_INFLIGHT", "handler_only_after_open", "one_permit_per_open"],
+        "technique": "Lean 4 theorems (induction over arbitrary operation / event sequences, potential argument for the "
+                     "window bound) on an executable transcription of limiter/mod.rs and on a small model of "
+                     "reusable_stream.rs:262-307 + rpc/mod.rs:191-243; differential run against the real Limiter "
+                     "(ManualClock, hand-polled futures) and against the real rpc::Service server over an in-memory transport",
+        "level_text": "Proof, for every configuration with burst <= usize::MAX and every finite sequence of acquire / poll / "
+                      "cancel / drop / clock-advance operations (arbitrary ids, permit counts, hold times): reserved <= permits "
+                      "<= burst and Permit::drop never underflows; the permits granted in any closed window [a, a+T] number at "
+                      "most burst + floor(T/refresh) + 1 (refresh > 0; shown tight), and so do the permits consumed; grants "
+                      "follow arrival order (grant order + queue order is a subsequence of arrival order, only the queue "
+                      "head is served); a wait that is cancelled or never served leaves refresh_ticks / permits / reserved "
+                      "untouched at every one of its polls; refresh <= 0 grants at once; more than burst is never granted. "
+                      "Composition, for every event sequence (arbitrary remote side and scheduler) of n = min(INFLIGHT, "
+                      "peer's max_streams) reusable streams sharing the limiter with one permit per OPEN: OPEN frames sent and "
+                      "streams established in any window <= burst + floor(T/refresh) + 1; handler invocations in any window "
+                      "<= n + burst + floor(T/refresh) + 1; handlers running <= INFLIGHT; every invocation used its own "
+                      "established stream. Correspondence on every run: each poll result and each grant timestamp of the "
+                      "real Limiter equals the model's (about 7*10^4 operations, 1500 cases in 8 directed families); the real "
+                      "rpc::Service server (INFLIGHT 1/3/5) against an unlimited greedy client: handler-invocation counts and "
+                      "running handlers at every quiescent point equal the model's under the same schedule.",
+        "level_note": "Limiter half: full strength (theorems on the model, model = code on everything generated). Arrival order "
+                      "and the atomicity of one poll rest on tokio's fair FIFO Mutex, watch::wait_for and ManualClock sleeps "
+                      "(assumed, exercised by the correspondence run). Per-connection half: PARTIAL - the theorems are about "
+                      "the composition model; that ReusableStream::run / Server::serve refine it is compared only on scenario "
+                      "observables (server side, test RPC on the ping capability, client that delays OPENs / requests, slow "
+                      "handlers), not proved, and a client that breaks the mux framing is C14's subject. The bound on requests "
+                      "started in a window carries the extra summand n <= INFLIGHT: the permit is consumed when the stream is "
+                      "established, so a peer may sit on n established streams and fire their requests together.",
         "harness": "c15",
         "n": {"quick": 1500, "thorough": 150000},
-        "rule": "TODO",
-        "trusted": [],
-        "assumptions": [],
-        "explanation": "TODO",
+        "rule": "N cases, each a fresh Limiter (init op) followed by 10-90 ops; families (i mod 10): 0,1 random interleaving "
+                "of acquire (n in 0..burst+2) / poll one or all / cancel / drop / advance (0, <=r, <=3r, k*r, to a refresh "
+                "boundary -1/0/+1 ns); 2 refill arithmetic at tick boundaries; 3,9 two holders released in either order "
+                "around a sleeper that already computed `need`, late wake-ups; 4 arrival order (big request first, small ones "
+                "polled first); 5 cancellation at each of the three await points followed by a fresh caller; 6 infinite / "
+                "negative refresh, over-burst and zero-permit requests; 7 executor-style round-robin polling; 8 short random "
+                "cases and (1 in 5) burst = usize::MAX or refresh = 10^18 s (saturating arithmetic); every case ends with "
+                "cancel-all, drop-all, refill and an acquire(burst) that must be granted at once. The generator runs the "
+                "real limiter while generating, so ops refer to futures / permits that exist. Then 48 RPC scenarios "
+                "(INFLIGHT 1/3/5, burst 1-4, refresh 7 ns-1 s, 5-9 steps of advance / release handlers / release requests / "
+                "release OPENs). An op is non-trivial if its observation class (granted / pending / dropped / cancelled / "
+                "advanced / noop / rpc) differs from the run's most frequent class; distinct = distinct op lines",
+        "trusted": ["the hand transcription of limiter/mod.rs into Model/Limiter.lean and of the stream / server loops into "
+                    "Model/RpcLimit.lean (compared with the code by the correspondence run only)",
+                    "hook node/components/network/src/verif/rpc.rs (test RPC VRpc<N>, recording handler, greedy client built "
+                    "from crate-private mux::StreamQueue / mux::Mux / frame::mux_send_proto)"],
+        "assumptions": ["tokio::sync::Mutex hands the lock to waiters in first-poll order without barging; "
+                        "watch::Receiver::wait_for re-evaluates its predicate on every poll; ManualClock sleep is ready iff "
+                        "now >= deadline; the clock is monotone (time is a natural number of ns since Limiter::start)",
+                        "burst <= usize::MAX = 2^64-1 (64-bit target); start + refresh*need overflowing Instant is treated "
+                        "like an infinite deadline (never reached in generated runs)",
+                        "per-connection half: every reusable stream of the capability runs the loop of "
+                        "reusable_stream.rs:262-307 and the server task invokes the handler at most once per established "
+                        "stream (rpc/mod.rs:197-238), as modelled"],
+        "explanation": "theorems over Model/Limiter.lean and Model/RpcLimit.lean for all operation / event sequences; K compares "
+                       "the real Limiter op by op (poll results, grant times) and the real RPC server scenario by scenario "
+                       "(handler-invocation counts, running handlers) with the models; S checks the window bound over all "
+                       "pairs of grant / consumption times, arrival order, no-leak after cancel, INFLIGHT cap and the "
+                       "request window bound on the real code",
     }
